@@ -34,12 +34,14 @@ META = {
                   "sync.Pool reuse is likely but not forced.",
 }
 
-ALL_INV = ["TypeOK", "FreshAfterReset", "Ownership", "HandlerSeesOwn", "LoggerOwn", "FinishedCode", "ClientExact", "RecordsOwn",
+ALL_INV = ["TypeOK", "LevelGoverns", "FreshAfterReset", "Ownership", "HandlerSeesOwn", "LoggerOwn", "FinishedCode", "ClientExact", "RecordsOwn",
            "OncePerRequest"]
 
 # design mutation -> an invariant it must break (negative model-checking runs)
 NEGATIVE = [
     ("fastPathDisabled", "HandlerSeesOwn"),   # run with the middleware level disabled
+    ("cachedEnabled", "LevelGoverns"),        # run with the level disabled at construction and SetLevel afterwards
+    ("hijackByAssertion", "ClientExact"),     # run with foreign Unwrap-only wrappers before the middleware
     ("urlRequestURI", "LoggerOwn"),           # request_uri rebuilt from the parsed URL (absolute / authority form)
     ("stickyHijack", "FreshAfterReset"),      # a hijacked flag that Reset does not clear
     ("cloneRequest", "HandlerSeesOwn"),       # deep copy: the Trailer map is no longer the client's
@@ -59,7 +61,7 @@ CHAIN_NEGATIVE = [
     ("appendInPlace", "CallerListIntact"),
 ]
 
-CODES_Q = "{101, 103, 200, 404}"
+CODES_Q = "{101, 103, 404}"
 CODES_T = "{100, 101, 200, 204, 304, 404, 599, 999}"
 
 COMPOSE_INV = ["PoolPurity", "Ownership", "HandlerSeesOwn", "LoggerOwn", "FinishedCode", "ClientExact", "RecordsOwn",
@@ -73,7 +75,7 @@ GATES_COARSE = '{"hpre", "readcode"}'
 
 
 def _consts(procs, init, retain=True, policy="any", variant="asWritten", keep=True, maxobj=None, gates=None,
-            pols=None, mwon=True, forms="FormsOAU"):
+            pols=None, mwon=True, forms="FormsOAU", ups="UpNone", toggles=0):
     c = {"Procs": "{%s}" % ", ".join(str(i) for i in range(1, procs + 1)),
          "InitOps": "<- " + init if init else "{}",
          "MaxObj": maxobj or procs,
@@ -82,6 +84,8 @@ def _consts(procs, init, retain=True, policy="any", variant="asWritten", keep=Tr
          "PolQ": '"%s"' % (pols or [policy] * 3)[1],
          "PolW": '"%s"' % (pols or [policy] * 3)[2],
          "FormOf": "<- " + forms,
+         "UpOf": "<- " + ups,
+         "MaxToggles": toggles,
          "MwEnabled": "TRUE" if mwon else "FALSE",
          "Variant": '"%s"' % variant,
          "KeepRecords": "TRUE" if keep else "FALSE"}
@@ -188,7 +192,10 @@ def _run(ctx):
         write_cfg(d / cfg, "Spec", dict(chain_c, MaxN=3, Rounds=2, Variant='"%s"' % variant), invariants=[inv])
         jobs.add("chain-neg-" + variant, tlc("MwChain", cfg, "chain-neg:" + variant, expect_ok=False, workers=2))
     write_cfg(d / "CodeRecMC_run.cfg", "Spec", {"MaxSteps": 6, "Codes": CODES_Q, "Variant": '"asWritten"'},
-              invariants=["FreshAfterReset", "CodeOK", "LastWins"])
+              invariants=["FreshAfterReset", "HijackReaches", "CodeOK", "LastWins"])
+    write_cfg(d / "CodeRecNeg2_run.cfg", "Spec", {"MaxSteps": 3, "Codes": "{200}", "Variant": '"hijackByAssertion"'},
+              invariants=["HijackReaches"])
+    jobs.add("coderec-neg2", tlc("CodeRec", "CodeRecNeg2_run.cfg", "coderec-neg:hijackByAssertion", expect_ok=False, workers=2))
     write_cfg(d / "CodeRecNeg_run.cfg", "Spec", {"MaxSteps": 4, "Codes": "{200}", "Variant": '"stickyHijack"'},
               invariants=["FreshAfterReset"])
     jobs.add("coderec-neg", tlc("CodeRec", "CodeRecNeg_run.cfg", "coderec-neg:stickyHijack", expect_ok=False, workers=2))
@@ -202,9 +209,16 @@ def _run(ctx):
     write_cfg(d / "LogMwMC2_classes.cfg", "Spec", _consts(2, "MCClasses"), invariants=ALL_INV, view="View")
     jobs.add("logmw-mc2-classes", tlc("LogMwMC", "LogMwMC2_classes.cfg",
                                       "logmw-mc: 2 requests, 49 pairs of status-class behaviours (101, 1xx, 204, 304, 599, 999)"))
-    write_cfg(d / "LogMwMC2_hijack.cfg", "Spec", _consts(2, "MCHijack", forms="FormsAUS"), invariants=ALL_INV, view="View")
+    write_cfg(d / "LogMwMC2_hijack.cfg", "Spec", _consts(2, "MCCaps" if q else "MCHijack", forms="FormsAUS", ups="UpUFO"),
+              invariants=ALL_INV, view="View")
     jobs.add("logmw-mc2-hijack", tlc("LogMwMC", "LogMwMC2_hijack.cfg",
-                                     "logmw-mc: 2 requests, 49 pairs of Hijack / Flush behaviours, absolute + authority form"))
+                                     "logmw-mc: 2 requests, Hijack / Flush / deadline / full-duplex behaviours behind foreign "
+                                     "writer wrappers (Unwrap-only, Flush-forwarding)"))
+    # the logger's level as mutable environment state: SetLevel between construction and requests and between requests
+    write_cfg(d / "LogMwMC2_level.cfg", "Spec", _consts(2, "MCNeg" if q else "MCAll", mwon=False, toggles=2),
+              invariants=ALL_INV, view="View")
+    jobs.add("logmw-mc2-level", tlc("LogMwMC", "LogMwMC2_level.cfg",
+                                    "logmw-mc: 2 requests, level disabled at construction, SetLevel x2 while nobody is in flight"))
     # the middleware's level filtered out by the base handler: no started / finished, same obligations otherwise
     write_cfg(d / "LogMwMC2_off.cfg", "Spec", _consts(2, "MCAll" if not q else "MCNeg", mwon=False), invariants=ALL_INV,
               view="View")
@@ -246,14 +260,17 @@ def _run(ctx):
                                   workers=max(4, NCPU // 2), timeout=2400))
     for variant, inv in NEGATIVE:
         cfg = "LogMwNeg_%s.cfg" % variant
-        write_cfg(d / cfg, "Spec", _consts(2, "MCHijack" if variant == "stickyHijack" else "MCNeg", variant=variant,
-                                           mwon=variant != "fastPathDisabled"),
+        write_cfg(d / cfg, "Spec",
+                  _consts(2, "MCHijack" if variant in ("stickyHijack", "hijackByAssertion") else "MCNeg", variant=variant,
+                          mwon=variant not in ("fastPathDisabled", "cachedEnabled"),
+                          toggles=2 if variant == "cachedEnabled" else 0,
+                          ups="UpUFO" if variant == "hijackByAssertion" else "UpNone"),
                   invariants=[inv], view="View")
         jobs.add("neg-" + variant, tlc("LogMwMC", cfg, "logmw-neg:" + variant, expect_ok=False, workers=2))
 
     # ---- 2. generators
     write_cfg(d / "CodeRecGen_run.cfg", "GSpec", {"MaxSteps": 5, "Codes": CODES_Q if q else CODES_T, "Variant": '"asWritten"'},
-              invariants=["Emit", "FreshAfterReset", "CodeOK", "LastWins"])
+              invariants=["Emit", "FreshAfterReset", "HijackReaches", "CodeOK", "LastWins"])
     jobs.add("coderec-gen", tlc("CodeRecGen", "CodeRecGen_run.cfg", "coderec-gen"))
 
     # Schedule generators write to one file each (separate scratch copies of the module: the file name is fixed
@@ -262,14 +279,16 @@ def _run(ctx):
                "OncePerRequest"]
     sched_files = []
 
-    def sched_gen(tag, procs, init, gates, simulate=None, depth=None, retain=True, mwon=True, forms="FormsOAU"):
+    def sched_gen(tag, procs, init, gates, simulate=None, depth=None, retain=True, mwon=True, forms="FormsOAU",
+                  ups="UpNone", toggles=0):
         mod = "LogMwGen_" + tag
         out = "logmw_sched_%s.ndjson" % tag
         src = (d / "LogMwGen.tla").read_text()
         src = src.replace("MODULE LogMwGen ", "MODULE %s " % mod, 1).replace("logmw_sched.ndjson", out)
         (d / (mod + ".tla")).write_text(src)
         cfg = mod + ".cfg"
-        write_cfg(d / cfg, "GSpec", _consts(procs, init, retain=retain, policy="min", gates=gates, mwon=mwon, forms=forms),
+        write_cfg(d / cfg, "GSpec", _consts(procs, init, retain=retain, policy="min", gates=gates, mwon=mwon, forms=forms, ups=ups,
+                                                toggles=toggles),
                   invariants=gen_inv)
         sched_files.append((tag, d / out, simulate is None))
         if simulate is None:
@@ -279,7 +298,8 @@ def _run(ctx):
 
     sched_gen("life2", 2, "GenAll", GATES_LIFE, forms="FormsOAU")
     sched_gen("pool2", 2, "GenSome" if q else "GenAll", GATES_POOL, retain=False, forms="FormsUEO")
-    sched_gen("hijack2", 2, "GenHijack", GATES_COARSE if q else '{"hpre", "cw", "hpost", "readcode"}', forms="FormsAUS")
+    sched_gen("hijack2", 2, "GenHijack", GATES_COARSE if q else '{"hpre", "cw", "readcode"}', forms="FormsAUS", ups="UpUFO")
+    sched_gen("level2", 2, "GenNeg" if q else "GenSome", GATES_COARSE if q else GATES_LIFE, mwon=False, toggles=2)
     sched_gen("classes2", 2, "GenClasses", GATES_COARSE if q else GATES_LIFE, forms="FormsSAE")
     sched_gen("off2", 2, "GenSome", '{"withattrs", "hpre", "readcode"}' if q else '{"withattrs", "hpre", "hpost", "readcode"}',
               mwon=False, forms="FormsAUS")
@@ -290,13 +310,13 @@ def _run(ctx):
               invariants=["Emit"] + COMPOSE_INV)
     sched_files.append(("compose", d / "logmw_sched_compose.ndjson", True))
     jobs.add("gen-compose", tlc("LogMwComposeGen", "LogMwComposeGen_run.cfg", "sched-gen:compose", timeout=1500))
-    sched_gen("fine2", 2, "GenEvery", GATES_ALL, simulate=2000 if q else 20000, forms="FormsEOA")
+    sched_gen("fine2", 2, "GenEvery", GATES_ALL, simulate=2000 if q else 20000, forms="FormsEOA", ups="UpUUN")
     if q:
         sched_gen("coarse3", 3, "GenSome", GATES_COARSE, simulate=1500, forms="FormsAUS")
     else:
         sched_gen("write2", 2, "GenAll", GATES_WRITE)
         sched_gen("coarse3", 3, "GenThree", GATES_COARSE, forms="FormsAUS")
-        sched_gen("fine3", 3, "GenEvery3", GATES_ALL, simulate=8000, depth=300, forms="FormsSAE")
+        sched_gen("fine3", 3, "GenEvery3", GATES_ALL, simulate=8000, depth=300, forms="FormsSAE", ups="UpONU")
 
     res = jobs.join()
     for name, r in res.items():
@@ -319,6 +339,9 @@ def _run(ctx):
     if res["coderec-neg"].violated != "FreshAfterReset":
         raise CheckerError("CodeRec design mutation stickyHijack does not violate FreshAfterReset")
     neg_ok.append("CodeRec/stickyHijack -> FreshAfterReset")
+    if res["coderec-neg2"].violated != "HijackReaches":
+        raise CheckerError("CodeRec design mutation hijackByAssertion does not violate HijackReaches")
+    neg_ok.append("CodeRec/hijackByAssertion -> HijackReaches")
     for inv in ("PoolPurity", "ClientExact"):
         r = res["compose-neg-" + inv]
         if r.violated != inv:
